@@ -16,9 +16,10 @@ real code by the `memb` correspondence, kind `rs` (the restart itself is the rea
   re-dispatches an entry at or below `last_applied` (so the loss is permanent, not a lag).
 * `restart_membership_partial` — the statement holds exactly when the applied config entries leave the
   initial configuration unchanged (the excluded trigger: some applied entry changed the view).
-* `commit_applies_fold_partial` / `skipped_config_witness` (defect F51): before any restart the view
-  equals the fold as long as no config entry fails; after a failing entry the remaining config
-  entries of the same batch are skipped although they are marked applied.
+* `applyBatch_eq_fold`, `commit_keeps_fold` — before any restart commit-time application is the
+  fold, whatever fails and however commits are batched. `f51_regression` keeps the pre-fix batch rule
+  (defect F51, found here, fixed in /repo: after a failing config entry the remaining config entries
+  of the same batch were skipped although marked applied) next to its witness.
 -/
 namespace DEngine.C28
 open DEngine.Memb
@@ -99,42 +100,51 @@ theorem restart_membership_no_config (s : RsNode) (h : ∀ e ∈ s.entries.take 
 
 example : (rsRunOps (rsInit f25Initial) [.cmd, .cmd, .commit 2, .restart]).view.nodes = f25Initial := by decide
 
-/-! ### before a restart: commit-time application vs. the fold (defect F51) -/
+/-! ### before a restart: commit-time application is the fold (defect F51, fixed) -/
 
-/-- a batch in which every config entry applies without error is applied as the fold -/
-theorem applyBatch_eq_fold (es : List LogEntry) : ∀ (v : View),
-    (∀ (pre : List LogEntry) (c : Change) (post : List LogEntry), es = pre ++ .conf c :: post →
-      (applyChange (foldConf v pre) c).2.1 = none) →
-    applyBatch v es false = foldConf v es := by
+/-- **Commit-time application = fold**, for every batch, whatever fails in it: the membership is a
+    function of the applied log, not of how commit notifications were batched. -/
+theorem applyBatch_eq_fold (es : List LogEntry) : ∀ (v : View) (failed : Bool),
+    applyBatch v es failed = foldConf v es := by
   induction es with
-  | nil => intro v _; rfl
+  | nil => intro v f; rfl
   | cons e rest ih =>
-    intro v h
+    intro v f
     cases e with
-    | cmd =>
-      simp only [applyBatch, foldConf, List.foldl_cons]
-      apply ih v
-      intro pre c post hsplit
-      have := h (.cmd :: pre) c post (by rw [hsplit]; rfl)
-      simpa [foldConf] using this
+    | cmd => simp only [applyBatch, foldConf, List.foldl_cons]; exact ih v f
     | conf c =>
-      have h0 := h [] c rest rfl
-      simp only [foldConf, List.foldl_nil] at h0
       simp only [applyBatch, foldConf, List.foldl_cons]
-      rw [h0]
-      simp only [Option.isSome_none]
-      have := ih (applyChange v c).1 (by
-        intro pre c' post hsplit
-        have := h (.conf c :: pre) c' post (by rw [hsplit]; rfl)
-        simpa [foldConf, applyView] using this)
-      simpa [foldConf, applyView] using this
+      exact ih (applyChange v c).1 _
 
-/-- witness (F51): entry 1 fails (node 2 is a voter already), entry 2 of the same batch is skipped -/
-theorem skipped_config_witness :
+/-- before any restart the view is the fold of the applied entries: one commit step from a state
+    whose view is the fold keeps it so -/
+theorem commit_keeps_fold (s : RsNode) (k : Nat)
+    (h : s.view = foldConf { nodes := s.initial } (s.entries.take s.lastApplied))
+    (hla : s.lastApplied ≤ s.entries.length) :
+    (rsStep s (.commit k)).1.view =
+      foldConf { nodes := s.initial } ((rsStep s (.commit k)).1.entries.take (rsStep s (.commit k)).1.lastApplied) := by
+  simp only [rsStep]
+  split
+  · rename_i hgt
+    simp only
+    rw [applyBatch_eq_fold, h]
+    unfold foldConf
+    rw [← List.foldl_append]
+    congr 1
+    have hpc : max s.pendingCommit (min k s.entries.length) = s.lastApplied + (max s.pendingCommit (min k s.entries.length) - s.lastApplied) := by omega
+    generalize hm : max s.pendingCommit (min k s.entries.length) - s.lastApplied = d at hpc
+    rw [hpc]
+    exact (List.take_add (l := s.entries) (i := s.lastApplied) (j := d)).symm
+  · exact h
+
+/-- regression of F51: the old batch rule skipped entry 2 after the failing entry 1; the current one
+    applies it, in one batch or two -/
+theorem f51_regression :
     let initial : List Node := [⟨1, 1, 3⟩, ⟨2, 1, 3⟩]
-    let s := rsRunOps (rsInit initial) [.conf (.add 2 sPromotable), .conf (.add 4 sPromotable), .commit 2]
-    let t := rsRunOps (rsInit initial) [.conf (.add 2 sPromotable), .conf (.add 4 sPromotable), .commit 1, .commit 2]
-    s.lastApplied = 2 ∧ t.lastApplied = 2 ∧ s.view.nodes ≠ t.view.nodes ∧
-      t.view.nodes = (rsReference initial t.entries 2).nodes := by decide
+    let es : List LogEntry := [.conf (.add 2 sPromotable), .conf (.add 4 sPromotable)]
+    applyBatchSkipping { nodes := initial } es false ≠ foldConf { nodes := initial } es ∧
+    (rsRunOps (rsInit initial) [.conf (.add 2 sPromotable), .conf (.add 4 sPromotable), .commit 2]).view =
+    (rsRunOps (rsInit initial) [.conf (.add 2 sPromotable), .conf (.add 4 sPromotable), .commit 1, .commit 2]).view := by
+  decide
 
 end DEngine.C28
